@@ -1052,6 +1052,8 @@ def generate(chk):
         if pc is None:
             continue
         lvl = "bounds" if pc in ("bounds_prop",) else "top"
+        if pc == "bounds_prop" and rng.random() < 0.6:
+            o["ip"] = ["bprop"]            # ... nor the bounds of a construct
         cases.append(mk_case("cons-perturbed", "cons", x, y, o, pc, lvl, extra=(rng.random() < 0.3)))
         if rng.random() < 0.5:
             cases.append(mk_case("cons-perturbed", "cons", y, x, o, pc, lvl))
@@ -1137,6 +1139,9 @@ def generate(chk):
                 continue
             y, pc = pr
             lvl = "fieldprop" if pc.startswith("fprop") else ("nested" if pc.startswith("cons:") else "top")
+            if pc.startswith("cons:prop_") and rng.random() < 0.6:
+                # ignore_properties of the field does not reach its metadata constructs
+                o["ip"] = [pc.split(":")[2]] + (["long_name"] if rng.random() < 0.3 else [])
             if rng.random() < 0.4:
                 y = rename_keys(y, rng) if rng.random() < 0.5 else reorder(y, rng)
             cases.append(mk_case("field-perturbed", "field", x, y, o, pc, lvl))
